@@ -98,7 +98,7 @@ def replay_case(r, case, module, cfg, component):
         raise core.Inconclusive("replay did not finish: %r" % o)
     # model->code mismatch: replay the single case with its recorded expectation
     inp = r.path("one.ndjson")
-    core.write_ndjson(inp, [case["case"]])
+    core.write_ndjson(inp, ([case["prev"]] if case.get("prev") else []) + [case["case"]])
     rep = r.path("one.json")
     r.pvh(component, "replay", **{"in": inp, "out": rep})
     res = json.load(open(rep))
